@@ -158,38 +158,82 @@ Proof.
   - apply seqb_spec in E. subst. exfalso. apply N. left; auto.
   - rewrite IH; auto.
 Qed.
-Lemma raw_merge s : forall m a, NoDup (map fst (sp_defines a) ++ define_keys m) ->
+(* assigning a key of a dictionary that holds it commutes with assignments to other keys *)
+Lemma dset_dset_same (d : list (string * string)) k v v' : dset seqb (dset seqb d k v) k v' = dset seqb d k v'.
+Proof.
+  induction d as [|[k0 v0] d IH]; cbn.
+  - rewrite (keqb_refl seqb seqb_spec). reflexivity.
+  - destruct (seqb k k0) eqn:E; cbn; rewrite E; [reflexivity|]. rewrite IH. reflexivity.
+Qed.
+Lemma dset_swap (d : list (string * string)) k v k' v' : k <> k' -> In k (map fst d) ->
+  dset seqb (dset seqb d k' v') k v = dset seqb (dset seqb d k v) k' v'.
+Proof.
+  intros N. induction d as [|[a b] t IH]; cbn [map fst In]; [intros []|]. intros H.
+  cbn [dset]. destruct (seqb k' a) eqn:E1, (seqb k a) eqn:E2; cbn [dset]; rewrite ?E1, ?E2; try reflexivity.
+  - apply seqb_spec in E1. apply seqb_spec in E2. congruence.
+  - f_equal. apply IH. destruct H as [H|H]; auto. subst. rewrite (keqb_refl seqb seqb_spec) in E2. discriminate.
+Qed.
+Lemma dset_keys_In (d : list (string * string)) k v x : In x (map fst d) -> In x (map fst (dset seqb d k v)).
+Proof. intros H. apply (dkeys_dset seqb seqb_spec). left. exact H. Qed.
+Lemma dset_key_In (d : list (string * string)) k v : In k (map fst (dset seqb d k v)).
+Proof. apply (dkeys_dset seqb seqb_spec). right. reflexivity. Qed.
+Lemma dict_update_set_held : forall r d k v, ~ In k (map fst r) -> In k (map fst d) ->
+  dset seqb (dict_update d r) k v = dict_update (dset seqb d k v) r.
+Proof.
+  induction r as [|[k1 v1] r IH]; intros d k v Nk Hk; cbn [dict_update fold_left]; [reflexivity|].
+  cbn [map fst In] in Nk. cbn [fst snd].
+  change (fold_left (fun d0 kv => dset seqb d0 (fst kv) (snd kv)) r (dset seqb d k1 v1)) with (dict_update (dset seqb d k1 v1) r).
+  change (fold_left (fun d0 kv => dset seqb d0 (fst kv) (snd kv)) r (dset seqb (dset seqb d k v) k1 v1)) with (dict_update (dset seqb (dset seqb d k v) k1 v1) r).
+  rewrite IH; [|tauto|apply dset_keys_In; auto]. f_equal. apply dset_swap.
+  - intros E. apply Nk. left. symmetry. exact E.
+  - exact Hk.
+Qed.
+(* the update by an included file's defines is the sequence of the file's own assignments *)
+Lemma dict_update_dset : forall inc s k v, NoDup (map fst inc) ->
+  dict_update s (dset seqb inc k v) = dset seqb (dict_update s inc) k v.
+Proof.
+  induction inc as [|[k0 v0] r IH]; intros s k v N; cbn [dset].
+  - reflexivity.
+  - cbn [map fst] in N. inversion N as [|? ? N1 N2]; subst. destruct (seqb k k0) eqn:E.
+    + apply seqb_spec in E. subst k0. cbn [dict_update fold_left fst snd].
+      change (fold_left (fun d0 kv => dset seqb d0 (fst kv) (snd kv)) r (dset seqb s k v)) with (dict_update (dset seqb s k v) r).
+      change (fold_left (fun d0 kv => dset seqb d0 (fst kv) (snd kv)) r (dset seqb s k v0)) with (dict_update (dset seqb s k v0) r).
+      rewrite (dict_update_set_held r (dset seqb s k v0) k v N1 (dset_key_In s k v0)). rewrite dset_dset_same. reflexivity.
+    + cbn [dict_update fold_left fst snd].
+      change (fold_left (fun d0 kv => dset seqb d0 (fst kv) (snd kv)) (dset seqb r k v) (dset seqb s k0 v0)) with (dict_update (dset seqb s k0 v0) (dset seqb r k v)).
+      change (fold_left (fun d0 kv => dset seqb d0 (fst kv) (snd kv)) r (dset seqb s k0 v0)) with (dict_update (dset seqb s k0 v0) r).
+      apply IH. exact N2.
+Qed.
+Lemma raw_step_keys a d : NoDup (map fst (sp_defines a)) -> NoDup (map fst (sp_defines (raw_step a d))).
+Proof. intros N. destruct d; cbn [raw_step sp_defines]; auto. apply (dkeys_dset_NoDup seqb seqb_spec). exact N. Qed.
+Lemma raw_merge s : forall m a, NoDup (map fst (sp_defines a)) ->
   raw_of m (merge s a) = merge s (raw_of m a).
 Proof.
   induction m as [|d m IH]; intros a N; cbn [raw_of fold_left]; auto.
   change (fold_left raw_step m (raw_step (merge s a) d)) with (raw_of m (raw_step (merge s a) d)).
   change (fold_left raw_step m (raw_step a d)) with (raw_of m (raw_step a d)).
-  assert (E : raw_step (merge s a) d = merge s (raw_step a d) /\ NoDup (map fst (sp_defines (raw_step a d)) ++ define_keys m)).
-  { destruct d as [file|k v|c|l]; cbn [raw_step merge sp_defines sp_categories sp_assets sp_assocs define_keys flat_map] in *.
-    - split; auto.
-    - cbn [app] in N. assert (Nk : ~ In k (map fst (sp_defines a))).
-      { intros A0. apply NoDup_remove_2 in N. apply N. apply in_or_app. left; auto. }
-      rewrite (dset_fresh _ _ _ Nk). split.
-      + unfold merge. cbn [sp_defines sp_categories sp_assets sp_assocs]. unfold dict_update. rewrite fold_left_app. reflexivity.
-      + rewrite map_app. cbn [map fst]. rewrite <- app_assoc. exact N.
-    - split; [rewrite <- !app_assoc; reflexivity|exact N].
-    - split; [rewrite <- !app_assoc; reflexivity|exact N]. }
-  destruct E as [-> N']. apply IH. exact N'.
+  assert (E : raw_step (merge s a) d = merge s (raw_step a d)).
+  { destruct d as [file|k v|c|l]; cbn [raw_step merge sp_defines sp_categories sp_assets sp_assocs].
+    - reflexivity.
+    - unfold merge. cbn [sp_defines sp_categories sp_assets sp_assocs]. rewrite dict_update_dset by exact N. reflexivity.
+    - unfold merge. cbn [sp_defines sp_categories sp_assets sp_assocs]. rewrite <- !app_assoc. reflexivity.
+    - unfold merge. cbn [sp_defines sp_categories sp_assets sp_assocs]. rewrite <- !app_assoc. reflexivity. }
+  rewrite E. apply IH. apply raw_step_keys. exact N.
 Qed.
 Lemma merge_empty s : merge s spec_empty = s.
 Proof. destruct s. unfold merge. cbn. rewrite !app_nil_r. reflexivity. Qed.
 
 (* replacing an include by the declarations of the included file *)
 Theorem include_inline P f m' S n :
-  files f = Some m' -> include_free m' = true -> NoDup (define_keys m') ->
+  files f = Some m' -> include_free m' = true ->
   v_mal files (Datatypes.S (Datatypes.S n)) (P ++ DInclude f :: S) = v_mal files (Datatypes.S (Datatypes.S n)) (P ++ m' ++ S).
 Proof.
-  intros Hf Hfree Hkeys. rewrite !v_mal_unfold. rewrite !fold_left_app. cbn [fold_left].
+  intros Hf Hfree. rewrite !v_mal_unfold. rewrite !fold_left_app. cbn [fold_left].
   destruct (fold_left (mstep_ files (Datatypes.S n)) P (Some spec_empty)) as [s|]; [|cbn [mstep_]; rewrite !fold_none; reflexivity].
   apply rel_final. apply rel_fold.
   cbn [mstep_]. rewrite Hf. rewrite v_mal_unfold. rewrite !fold_include_free by auto. cbn [option_map orel].
   replace (raw_of m' s) with (merge s (raw_of m' spec_empty))
-    by (rewrite <- raw_merge by (cbn; exact Hkeys); rewrite merge_empty; reflexivity).
+    by (rewrite <- raw_merge by (cbn; constructor); rewrite merge_empty; reflexivity).
   set (X := raw_of m' spec_empty). unfold merge, rel, spec_dedupe. cbn [sp_defines sp_categories sp_assets sp_assocs].
   split; [reflexivity|]. repeat split; intros Y; rewrite <- !app_assoc.
   - apply (dedupe_absorbs_inner fcat_eqb fcat_eqb_spec).
@@ -309,63 +353,52 @@ Proof.
 Qed.
 
 Lemma flat_fold f :
-  (forall m fm, flat f m = Some fm -> NoDup (define_keys fm) -> v_mal files f m = Some (spec_dedupe (raw_of fm spec_empty))) ->
-  forall m fm s, flat_list (flat f) m = Some fm -> NoDup (map fst (sp_defines s) ++ define_keys fm) ->
+  (forall m fm, flat f m = Some fm -> v_mal files f m = Some (spec_dedupe (raw_of fm spec_empty))) ->
+  forall m fm s, flat_list (flat f) m = Some fm ->
     exists s', fold_left (mstep_ files f) m (Some s) = Some s' /\ rel s' (raw_of fm s).
 Proof.
-  intros IHf. induction m as [|d r IH]; intros fm s Hf N; cbn [flat_list] in Hf.
+  intros IHf. induction m as [|d r IH]; intros fm s Hf; cbn [flat_list] in Hf.
   - inversion Hf; subst. exists s. split; [reflexivity|apply rel_refl].
   - destruct d as [g|k v|c|l].
     + (* include *)
       destruct (files g) as [m'|] eqn:Eg; [|discriminate].
       destruct (flat f m') as [a|] eqn:Ea; [|discriminate]. destruct (flat_list (flat f) r) as [b|] eqn:Eb; [|discriminate].
-      inversion Hf; subst fm. clear Hf. rewrite define_keys_app in N.
-      assert (Na : NoDup (define_keys a)) by (apply NoDup_app_r in N; apply NoDup_app_l in N; auto).
-      pose proof (IHf m' a Ea Na) as Ev.
+      inversion Hf; subst fm. clear Hf.
+      pose proof (IHf m' a Ea) as Ev.
       cbn [fold_left mstep_]. rewrite Eg, Ev.
       set (X := raw_of a spec_empty).
       change (Some (mkFSpec (dict_update (sp_defines s) (sp_defines (spec_dedupe X))) (sp_categories s ++ sp_categories (spec_dedupe X))
                             (sp_assets s ++ sp_assets (spec_dedupe X)) (sp_assocs s ++ sp_assocs (spec_dedupe X))))
         with (Some (merge s (spec_dedupe X))).
       assert (E2 : raw_of a s = merge s X).
-      { unfold X. rewrite <- (merge_empty s) at 1. apply raw_merge. cbn. exact Na. }
+      { unfold X. rewrite <- (merge_empty s) at 1. apply raw_merge. cbn. constructor. }
       assert (R1 : rel (merge s (spec_dedupe X)) (raw_of a s)) by (rewrite E2; apply merge_dedupe_rel).
       destruct (IH b (raw_of a s) eq_refl) as (s2 & F2 & R2).
-      { rewrite raw_of_defines by (rewrite app_assoc in N; apply NoDup_app_l in N; auto). rewrite <- app_assoc. exact N. }
       pose proof (rel_fold f r (Some (merge s (spec_dedupe X))) (Some (raw_of a s)) R1) as RF. rewrite F2 in RF.
       destruct (fold_left (mstep_ files f) r (Some (merge s (spec_dedupe X)))) as [s1|]; [|destruct RF].
       exists s1. split; auto. rewrite raw_of_app. eapply rel_trans; eauto.
-    + (* define *)
-      destruct (flat_list (flat f) r) as [b|] eqn:Eb; [|discriminate]. inversion Hf; subst fm. clear Hf.
-      cbn [fold_left mstep_]. cbn [define_keys flat_map app] in N. fold (define_keys b) in N.
-      assert (Nk : ~ In k (map fst (sp_defines s))).
-      { intros A0. apply NoDup_remove_2 in N. apply N. apply in_or_app. left; auto. }
-      destruct (IH b (raw_step s (DDefine k v)) eq_refl) as (s2 & F2 & R2).
-      { cbn [raw_step sp_defines]. rewrite (dset_fresh _ _ _ Nk), map_app. cbn [map fst]. rewrite <- app_assoc. exact N. }
-      exists s2. split; auto.
-    + (* category *)
-      destruct (flat_list (flat f) r) as [b|] eqn:Eb; [|discriminate]. inversion Hf; subst fm. clear Hf.
-      cbn [fold_left mstep_]. destruct (IH b (raw_step s (DCategory c)) eq_refl) as (s2 & F2 & R2); [exact N|]. exists s2. split; auto.
-    + (* associations *)
-      destruct (flat_list (flat f) r) as [b|] eqn:Eb; [|discriminate]. inversion Hf; subst fm. clear Hf.
-      cbn [fold_left mstep_]. destruct (IH b (raw_step s (DAssociations l)) eq_refl) as (s2 & F2 & R2); [exact N|]. exists s2. split; auto.
+    + destruct (flat_list (flat f) r) as [b|] eqn:Eb; [|discriminate]. inversion Hf; subst fm. clear Hf.
+      cbn [fold_left mstep_]. destruct (IH b (raw_step s (DDefine k v)) eq_refl) as (s2 & F2 & R2). exists s2. split; auto.
+    + destruct (flat_list (flat f) r) as [b|] eqn:Eb; [|discriminate]. inversion Hf; subst fm. clear Hf.
+      cbn [fold_left mstep_]. destruct (IH b (raw_step s (DCategory c)) eq_refl) as (s2 & F2 & R2). exists s2. split; auto.
+    + destruct (flat_list (flat f) r) as [b|] eqn:Eb; [|discriminate]. inversion Hf; subst fm. clear Hf.
+      cbn [fold_left mstep_]. destruct (IH b (raw_step s (DAssociations l)) eq_refl) as (s2 & F2 & R2). exists s2. split; auto.
 Qed.
 
 (* compiling a root file with any tree of includes below it = evaluating the flattened declaration list *)
-Theorem flat_compile : forall f m fm, flat f m = Some fm -> NoDup (define_keys fm) ->
+Theorem flat_compile : forall f m fm, flat f m = Some fm ->
   v_mal files f m = Some (spec_dedupe (raw_of fm spec_empty)).
 Proof.
-  induction f as [|f IHf]; intros m fm Hf N; [discriminate|].
+  induction f as [|f IHf]; intros m fm Hf; [discriminate|].
   rewrite v_mal_unfold. cbn [flat] in Hf.
-  destruct (flat_fold f IHf m fm spec_empty Hf) as (s' & F & R); [cbn; exact N|].
+  destruct (flat_fold f IHf m fm spec_empty Hf) as (s' & F & R).
   rewrite F. apply (rel_final (Some s') (Some (raw_of fm spec_empty))). exact R.
 Qed.
-
 End Layout.
 
 (* two layouts of one language — whatever the split into files and the nesting of the includes — that flatten to the same
    declaration list compile to the same specification *)
 Theorem layout_independent files1 files2 f1 f2 m1 m2 fm :
-  flat files1 f1 m1 = Some fm -> flat files2 f2 m2 = Some fm -> NoDup (define_keys fm) ->
+  flat files1 f1 m1 = Some fm -> flat files2 f2 m2 = Some fm ->
   v_mal files1 f1 m1 = v_mal files2 f2 m2.
-Proof. intros H1 H2 N. rewrite (flat_compile files1 f1 m1 fm H1 N), (flat_compile files2 f2 m2 fm H2 N). reflexivity. Qed.
+Proof. intros H1 H2. rewrite (flat_compile files1 f1 m1 fm H1), (flat_compile files2 f2 m2 fm H2). reflexivity. Qed.
